@@ -216,6 +216,8 @@ func (r *Runner) BuildObject(o ObjSpec, cluster bool) corev1alpha1.ObjectSetObje
 		u.SetNamespace(engine.NSMain)
 	}
 	switch o.Special {
+	case "dup":
+		// same identity as an earlier object of the set
 	case "ghost":
 		u.SetGroupVersionKind(engine.GVKGhost)
 		u.SetName("ghost-" + strconv.Itoa(mod(o.Pool, 2)))
@@ -702,6 +704,26 @@ func (r *Runner) Exec(idx int, st Step) error {
 	case "quiesce":
 		_, _, err := r.Quiesce()
 		return err
+	case "tpForeign":
+		// pre-existing objects outside the owner's reach: a ConfigMap in the other namespace and a ClusterWidget,
+		// optionally carrying a (forged) controller reference to the first ObjectSet
+		r.W.ActAs("thirdparty", func(c client.Client) {
+			var u unstructured.Unstructured
+			switch mod(st.I, 2) {
+			case 0:
+				u = engine.Desired(engine.PoolObj{GVK: engine.GVKConfigMap, Name: "cm-" + strconv.Itoa(mod(st.I/4, 4)), Namespace: engine.NSOther}, 9)
+			case 1:
+				u = engine.Desired(engine.PoolObj{GVK: engine.GVKClusterWidget, Name: "cw-" + strconv.Itoa(mod(st.I/4, 2))}, 9)
+			}
+			if mod(st.I/2, 2) == 1 && len(r.Sets) > 0 {
+				if so := r.W.Store.PeekNoCopy(r.setKey(r.Sets[0])); so != nil {
+					u.Object["metadata"].(map[string]any)["ownerReferences"] = []any{refMap(engine.Ref{
+						APIVersion: "package-operator.run/v1alpha1", Kind: asStr(so["kind"]), Name: r.Sets[0].Name, UID: engine.UID(so), Controller: true})}
+					u.SetLabels(map[string]string{constants.DynamicCacheLabel: "True"})
+				}
+			}
+			_ = c.Create(r.W.Ctx, &u)
+		})
 	case "pausePhase":
 		keys := append(r.W.ListKeys(engine.PKOGroup, "ObjectSetPhase"), r.W.ListKeys(engine.PKOGroup, "ClusterObjectSetPhase")...)
 		if len(keys) == 0 {
